@@ -130,7 +130,7 @@ def observe(dec, payload: bytes, own: int, message=None, twin=None, msgdesc: str
     detail = v if o == "raised" else ("" if outcome != "raised" else f"returned {type(v).__name__}")
     same = [bool(outcome == "dict" and r is not None and r == v) for r in res]
     return {"acc": acc, "same": same, "outcome": outcome, "detail": detail or "", "prev_before": pb, "prev_after": prev_index(dec),
-            "own": own, "pair": pair, "steps": steps, "n": len(payload), "payload": payload.hex(),
+            "own": own, "pair": pair, "steps": min(int(steps), 2 ** 31 - 1), "n": len(payload), "payload": payload.hex(),
             "form": "readout" if readout else ("message" if message is not None else "payload"), "msg": msgdesc or ("dlms" if message is not None else "")}
 
 
@@ -142,17 +142,20 @@ def _limit_memory():
 
 
 def _job_histories(args):
-    import logging
-    logging.disable(logging.CRITICAL)
+    from .core import set_logging
+    set_logging(args)
     _limit_memory()
     from han.autodecoder import AutoDecoder
     from han.common import DlmsMessage
     hists = args
     out = []
+    by, by_pool, nby = AutoDecoder(), [g[1] for g in genuine_pool()], 0     # another decoder, used between the calls: instances are independent
     for h in hists:
         dec, twin = AutoDecoder(), AutoDecoder()
         calls = []
         for (name, payload, own, as_message) in h:
+            guarded(by.decode_message_payload, by_pool[nby % len(by_pool)])
+            nby += 1
             if as_message:
                 desc = as_message if isinstance(as_message, str) else "dlms"
                 calls.append(observe(dec, payload, own, message=message_from(desc, payload), twin=twin, msgdesc=desc))
@@ -238,8 +241,8 @@ def mutations(rng: random.Random, name: str, b: bytes, quick: bool):
 
 
 def _job_c15(args):
-    import logging
-    logging.disable(logging.CRITICAL)
+    from .core import set_logging
+    set_logging(args)
     _limit_memory()
     from han.autodecoder import AutoDecoder
     items, primers = args
@@ -428,6 +431,11 @@ def run_c12(chk: Check) -> int:
         same = [x for x in gen if x[2] == g[2]]
         if same:
             hists.append([rng.choice(same) + (False,), g + (False,)])
+    # long runs of one decoder, then a message only another decoder accepts (nothing may "lock on")
+    for g in gen[:: (3 if quick else 1)]:
+        others = [x for x in gen if x[2] not in (0, g[2])]
+        for k in ((12, 13) if quick else (11, 12, 13, 20, 40, 100)):
+            hists.append([g + (False,)] * k + [rng.choice(others) + (False,), g + (False,)])
     # same-meter-same-form histories (the genuine-message clause)
     for name, b, own in gen:
         same = [g for g in gen if g[2] == own]
@@ -524,7 +532,8 @@ def run_c15(chk: Check) -> int:
         items.append(("rand", bytes(rng.randrange(256) for _ in range(rng.choice([1, 2, 8, 30, 100, 300])))))
     for _ in range(300 if quick else 3000):
         items.append(("ascii", bytes(rng.choice(b"()*.-:0123456789aAkWhinf e+\r\n") for _ in range(rng.randint(1, 60)))))
-    for s in (b"1-0:99.97.0(2)(0-0:96.7.19)(170520130938S)(0000005627*s)\r\n", b"1.8.0(inf*kW)", b"1.8.0(nan*kW)", b"1.8.0(1e999*kWh)", b"1.0(5", b"1.0(5)xyz", b"1.0(5)x)", b"a*(", b"(" * 500, b")" * 500,
+    for s in (b"1-0:99.97.0(2)(0-0:96.7.19)(170520130938S)(0000005627*s)\r\n", b"1.8.0(inf*kW)", b"1.8.0(nan*kW)", b"1.8.0(1e999*kWh)", b"1.0(5", b"1.0(5)xyz", b"1.0(5)x)", b"a*(", b"(" * 500, b")" * 500, b"(" * 3000, b"1.8.0" + b"(1)" * 600, b"1.8.0" + b"(1)" * 1100, b"1.8.0" + b"(1)" * 2500,
+              b"1-0:1.8.0" + b"(1*kWh)" * 1300, b"1.8.0(" * 1200, b"1.8.0" + b"()" * 1500, b"1.8.0(1)\r\n" * 1200, b"1.8.0(1*" + b"k" * 3000 + b")",
               b"1.8.0(" + b"9" * 5000 + b"*kWh)", b"1.8.0(1)" * 800, b"a(" * 700, b"1.0.0(999999999999)", b"1.0.0(21)", b"0-0:1.0.0(2101061607)"):
         items.append(("crafted", s))
     # numeric literal forms Python's converters accept or nearly accept, under every unit class (exponents make big integers)
@@ -579,8 +588,8 @@ def replay_c15(chk, rp):
 
 
 def _parse_job(cases):
-    import logging
-    logging.disable(logging.CRITICAL)
+    from .core import set_logging
+    set_logging(cases)
     _limit_memory()
     from han.dlde import DataSet
     bad = []
